@@ -6,7 +6,8 @@
    nd/nv  = number of directly / potentially visible declarations of the site's designator
    c*     = what the model of the analyser observes through the cache (ScopeImpl.model_program)
    u*     = what it would observe with lookup_uncached
-   target = <id> | -        class = OK | CONFLICT | UNDECL | ERROR
+   target = <id> | -        class = OK | CONFLICT | UNDECL | ERROR ; an optional 9th field g<k> = stage of
+            `disambiguate` that selected the subprogram of a call with a use-site actual
    disc   = the scope-operation trace of the elaborator follows the analysis discipline
             (ScopeImpl.disciplined_b); X = the elaborator got stuck (ill-formed program).
    An optional first field `cfg=<name>@` selects a pre-fix variant of the model. *)
@@ -47,6 +48,15 @@ let parse_usage s =
   | 'c' -> (match split_on '/' (Stdlib.String.sub s 1 (Stdlib.String.length s - 1)) with
             | [a; t] -> UCall ((if a = "u" then AUniv else ATy (parse_ty a)), parse_ty t)
             | _ -> fail "bad call")
+  | 'x' ->
+    (* xn<sid>.<des>/<ty>  |  xc<sid>.<des>.<arg>/<ty> *)
+    (match split_on '/' (Stdlib.String.sub s 2 (Stdlib.String.length s - 2)) with
+     | [x; t] ->
+       (match s.[1], split_on '.' x with
+        | 'n', [i; d] -> UCallX (XName (num i, num d), parse_ty t)
+        | 'c', [i; d; a] -> UCallX (XCall (num i, num d, (if a = "u" then AUniv else ATy (parse_ty a))), parse_ty t)
+        | _ -> fail "bad x usage")
+     | _ -> fail "bad x usage")
   | _ -> fail ("bad usage: " ^ s)
 let parse_item s =
   let body = Stdlib.String.sub s 1 (Stdlib.String.length s - 1) in
@@ -106,7 +116,8 @@ let () =
            let i = int_of_n i in
            let nd, nv = try Hashtbl.find st i with Not_found -> (0, 0) in
            let ms = match Hashtbl.find_opt tbl i with
-             | Some o -> show_mres o.o_cached ^ ":" ^ show_mres o.o_uncached
+             | Some o -> show_mres o.o_cached ^ ":" ^ show_mres o.o_uncached ^
+                         (match o.o_stage with Some k -> ":g" ^ string_of_int (int_of_nat k) | None -> "")
              | None -> "?:?:?:?" in
            Buffer.add_string buf (Printf.sprintf "%d:%s:%d:%d:%s " i (show_answer a) nd nv ms)) spec);
       print_endline (Buffer.contents buf)
